@@ -134,7 +134,7 @@ func c20rtCaller() (who, site, fn string) {
 	site = "other"
 	for {
 		f, more := frames.Next()
-		name := f.Function
+		name := vCanonNames(f.Function)
 		switch {
 		case strings.Contains(name, "cmd.c20rtRun"):
 			inRun = true // the harness calls startRealmServerRuntime synchronously: whatever it reads is the startup's doing
